@@ -251,15 +251,21 @@ static int cmd_run(int argc, char** argv)
                 uint64_t n  = out.st.counters["probe.locked_code_running_unlocked"];
                 uint64_t ns = out.st.counters["probe.basic_blocks_under_shared_hold"];
                 // ... and likewise at each basic block executed under a shared hold of the lock
-                for (uint64_t kk = 0; kk < std::min<uint64_t>(n, 120) + std::min<uint64_t>(ns, 120) && !out.v.any() && !out.must_exit; ++kk)
+                // ... and, when some call completed without ever taking the container's lock (never on the pinned
+                // tree, where every public method locks), at each basic block the other client executes inside its
+                // own exclusive critical section: the lock-free method then runs in the middle of a half-applied
+                // operation
+                uint64_t nh = out.st.counters["probe.calls_that_never_took_the_lock"] ? out.st.counters["probe.basic_blocks_under_exclusive_hold"] : 0;
+                const uint64_t c1 = std::min<uint64_t>(n, 120), c2 = std::min<uint64_t>(ns, 120), c3 = std::min<uint64_t>(nh, 400);
+                for (uint64_t kk = 0; kk < c1 + c2 + c3 && !out.v.any() && !out.must_exit; ++kk)
                 {
-                    const bool     sh = kk >= std::min<uint64_t>(n, 120);
-                    const uint64_t k  = sh ? kk - std::min<uint64_t>(n, 120) : kk;
+                    const bool     sh = kk >= c1 && kk < c1 + c2, ho = kk >= c1 + c2;
+                    const uint64_t k  = ho ? kk - c1 - c2 : sh ? kk - c1 : kk;
                     js::Value p2 = plan;
                     auto      sc = *p2.get("sched");
                     auto      su = js::Value::array();
                     su.push(js::Value::integer((int64_t)k));
-                    sc.set(sh ? "shared" : "susp", std::move(su));
+                    sc.set(ho ? "hold" : sh ? "shared" : "susp", std::move(su));
                     sc.set("mode", 0); // decision list: the forced switch at the preemption needs a non-explicit mode
                     sc.set("list", js::Value::array());
                     p2.set("sched", std::move(sc));
